@@ -116,6 +116,8 @@ type fs struct {
 	opaqueXattrs  []string
 	passThrough   passThroughConfig
 	logFileAccess bool
+
+	passThroughOff uint32 // set (atomically) once GetPassthroughFd failed
 }
 
 func (fs *fs) inodeOfState() uint64 {
@@ -393,12 +395,12 @@ func (n *node) Open(ctx context.Context, flags uint32) (fh fusefs.FileHandle, fu
 		fd: -1,
 	}
 
-	if n.fs.passThrough.enable {
+	if n.fs.passThrough.enable && atomic.LoadUint32(&n.fs.passThroughOff) == 0 {
 		if getter, ok := ra.(reader.PassthroughFdGetter); ok {
 			fd, cr, err := getter.GetPassthroughFd(n.fs.passThrough.mergeBufferSize, n.fs.passThrough.mergeWorkerCount)
 			if err != nil {
 				n.fs.s.report(fmt.Errorf("passThrough model failed due to node.Open: %v", err))
-				n.fs.passThrough.enable = false
+				atomic.StoreUint32(&n.fs.passThroughOff, 1)
 			} else {
 				f.InitFd(int(fd))
 				f.cr = cr
